@@ -67,6 +67,23 @@ class Acc:
                 }
             )
 
+    def guard(self, case: dict, fn, *args, **kwargs) -> bool:
+        """Run one case; an exception escaping from it is a violation of the property (the implementation raised
+        where the reference model defines a result), not a crash of the check."""
+        try:
+            fn(*args, **kwargs)
+            return True
+        except Exception as ex:  # noqa: BLE001
+            import traceback
+
+            tb = traceback.extract_tb(ex.__traceback__)
+            where = next((f"{f.filename.split('/')[-1]}:{f.name}" for f in reversed(tb) if "/fuzzylite/" in f.filename),
+                         f"{tb[-1].filename.split('/')[-1]}:{tb[-1].name}")
+            self.evals += 1
+            self.violate("exception", {"type": type(ex).__name__, "where": where}, case, "no exception",
+                         f"{type(ex).__name__}: {ex}", f"unexpected {type(ex).__name__} in {where}: {str(ex)[:200]}")
+            return False
+
     def result(self) -> dict:
         return {
             "evals": self.evals,
